@@ -44,6 +44,19 @@ LineAcceptRetruncated(r, moves, endp, retr) ==
 PointStoreWholeStep(lonSame, altSame, toward, cut, ongrid) ==
   lonSame /\ altSame /\ toward /\ ongrid /\ cut >= 1000 /\ cut <= 1001
 
+\* ---- (1) open: D12 -----------------------------------------------------------
+\* ConvertPointListToProjectedPointList hands the point's altitude to the third-party
+\* datum transformation, whose geodetic <-> geocentric round trip loses accuracy with
+\* height: the EPSG:3857 result is off by ~1e-6 m at 10 km, 2 cm at 1000 km, and lands in
+\* the other hemisphere below -6378 km (inside the documented +-2^25 m domain).  The
+\* deviation covers only the NUMERIC clauses of C18, only for lists containing a point
+\* higher / lower than 5 km; structure, altitude bits and the error rule must hold.
+\* (a latitude that comes back outside the valid range makes the reverse conversion return
+\* a point without its altitude: part of the same finding, hence balt is not required)
+ProjectHighAltitude(known, code, maxalt, isOk, n, rn, ralt, backok, bn, balt) ==
+  /\ known /\ code = 3857 /\ maxalt > 5000
+  /\ isOk /\ rn = n /\ ralt /\ backok /\ bn = n
+
 \* ---- (2) repaired ------------------------------------------------------------
 \* D1: vertical zoom-out with Go's truncating division
 VerticalZoomMinMaxTrunc(zi, f, zo) ==
